@@ -156,6 +156,32 @@ theorem update_equiv {α : Type} (info : List (GVar × Nat × Nat)) (hd : Disjoi
     update info f newf (fresh info inp comp mem0) = fresh info (override inp f newf) comp mem0 :=
   update_eq_fresh info hd f inp newf comp mem0 hindep
 
+/-- **update_equiv, hypothesis discharged by the repaired code** (/repo 5ff56ef): `dependency_analysis`
+no longer precomputes descendants of variables sourced from an updatable field
+(`precompRule true`).  If the precomputed globals of the assembler are among the variables that rule
+selects, then for every updatable field `update(f=…)` equals constructing afresh — without any
+independence assumption. -/
+theorem update_equiv_repaired {α : Type} (info : List (GVar × Nat × Nat)) (hd : DisjointRanges info)
+    (f : Nat) (inp : Nat × Nat → Nat → α) (newf : Nat → Nat → α) (mem0 : Nat → α)
+    (deps : Nat → List Nat) (srcOf : Nat → Option (Nat × Nat)) (op : Nat → List (Nat → α) → Nat → α)
+    (isUpd basisScope : Nat → Bool) (fuel : Nat) (linearDeps : List Nat)
+    (hflag : ∀ v d, srcOf v = some (f, d) → isUpd v = true)
+    (hcomp : ∀ v, srcOf v = none → isUpd v = false)
+    (hsrc : ∀ e ∈ info, e.1.src = srcOf e.1.var.name)
+    (hpre : ∀ e ∈ info, e.1.src = none →
+      e.1.var.name ∈ precompRule true deps isUpd basisScope fuel linearDeps) :
+    update info f newf (fresh info inp (fun v i => evalVar deps srcOf op i fuel v.name) mem0)
+      = fresh info (override inp f newf) (fun v i => evalVar deps srcOf op i fuel v.name) mem0 :=
+  update_eq_fresh_repaired info hd f inp newf mem0 deps srcOf op isUpd basisScope fuel linearDeps
+    hflag hcomp hsrc hpre
+
+/-- the rule as coded before the fix precomputed `_tmp = f·f` (variable 1, depending on the
+updatable-sourced variable 0); the repaired rule keeps it in the kernel. -/
+theorem precompute_rule_before_after :
+    precompRule false (fun v => if v = 1 then [0] else []) (fun v => v == 0) (fun _ => false) 2 [0, 1] = [0, 1] ∧
+    precompRule true (fun v => if v = 1 then [0] else []) (fun v => v == 0) (fun _ => false) 2 [0, 1] = [0] := by
+  decide
+
 /-- the independence hypothesis is forced: one input-field variable `f` (slot 0) and one precomputed
 variable `t = f·f` (slot 1) — after `update` the precomputed slot is stale.  (Replayed on the real
 code by the harness: known finding `update-stale-precomputed`.) -/
